@@ -1,7 +1,10 @@
 package rules
 
 import (
+	"fmt"
+	"go/token"
 	"go/types"
+	"os"
 	"sort"
 	"strings"
 
@@ -187,6 +190,16 @@ func fnValuesIn(v ssa.Value, depth int) []*ssa.Function {
 	return nil
 }
 
+// repoIface: t is a named interface type declared in the module.
+func repoIface(t types.Type) bool {
+	n, ok := t.(*types.Named)
+	if !ok || n.Obj() == nil || n.Obj().Pkg() == nil || !load.InModule(n.Obj().Pkg().Path()) {
+		return false
+	}
+	_, isIface := n.Underlying().(*types.Interface)
+	return isIface
+}
+
 // Graph builds (once) the repository call graph.
 func (c *Ctx) Graph() *Graph {
 	if c.graph != nil {
@@ -277,15 +290,39 @@ func (c *Ctx) Graph() *Graph {
 					add(fn, f, in, "funcvalue")
 				}
 				// repository type converted to an interface: its methods may be called
-				if mi, ok := (*op).(*ssa.MakeInterface); ok {
+				if mi, ok := (*op).(*ssa.MakeInterface); ok && !repoIface(mi.Type()) {
 					if pk, _ := namedOf(mi.X.Type()); load.InModule(pk) {
 						methodsOf(mi.X.Type(), fn, in)
 					}
 				}
 			}
-			if mi, ok := in.(*ssa.MakeInterface); ok {
+			// A value converted to an interface that the repository declares is called
+			// through that interface by the repository itself: those calls are resolved
+			// at the invoke sites (class hierarchy, below). The conversion alone makes
+			// nothing reachable - unless the interface value is later widened to an
+			// interface of another package and handed out (ChangeInterface).
+			if mi, ok := in.(*ssa.MakeInterface); ok && !repoIface(mi.Type()) {
 				if pk, _ := namedOf(mi.X.Type()); load.InModule(pk) {
 					methodsOf(mi.X.Type(), fn, in)
+				}
+			}
+			if ci, ok := in.(*ssa.ChangeInterface); ok && repoIface(ci.X.Type()) && !repoIface(ci.Type()) {
+				if src, _ := ci.X.Type().Underlying().(*types.Interface); src != nil {
+					for _, pk := range c.P.Roots {
+						sc := pk.Types.Scope()
+						for _, nm := range sc.Names() {
+							tn, ok := sc.Lookup(nm).(*types.TypeName)
+							if !ok || tn.IsAlias() {
+								continue
+							}
+							if _, isIface := tn.Type().Underlying().(*types.Interface); isIface {
+								continue
+							}
+							if types.Implements(tn.Type(), src) || types.Implements(types.NewPointer(tn.Type()), src) {
+								methodsOf(tn.Type(), fn, in)
+							}
+						}
+					}
 				}
 			}
 			if cc == nil {
@@ -331,12 +368,32 @@ func (c *Ctx) Graph() *Graph {
 				}
 				return
 			}
+			// A call through a parameter (or through a parameter captured by a closure) invokes what a
+			// caller handed in. Every function value that can arrive there is mentioned as an operand
+			// somewhere, and that mention is an edge from the mentioning function (above): the callback
+			// is reachable exactly when a function that mentions it is. The edges from the call site to
+			// every function of the signature are kept for the rules that follow arguments into
+			// callbacks, but reachability does not cross them - a walk helper shared by update and
+			// compare would otherwise make each command reach the other's callback.
+			kind := "dynamic"
+			if calledThroughParameter(cc.Value) {
+				kind = "dynamic-param"
+			}
 			for f := range addrTaken {
 				if types.Identical(f.Signature, cc.Signature()) || sameParamsResults(f.Signature, cc.Signature()) {
-					add(fn, f, in, "dynamic")
+					add(fn, f, in, kind)
 				}
 			}
 		})
+	}
+	if dbg := os.Getenv("CRSVERIF_EDGES"); dbg != "" {
+		for to, es := range g.In {
+			if strings.Contains(load.FnName(to), dbg) {
+				for _, e := range es {
+					fmt.Printf("EDGE %s -> %s [%s] %s\n", load.FnName(e.Caller), load.FnName(to), e.Kind, c.P.InstrPos(e.Site))
+				}
+			}
+		}
 	}
 	c.graph = g
 	return g
@@ -374,6 +431,35 @@ func resolveFnValue(v ssa.Value, depth int) []*ssa.Function {
 	return nil
 }
 
+// calledThroughParameter: the function value called is a parameter, a captured variable, or the
+// memory cell a parameter was moved to because a closure captures it.
+func calledThroughParameter(v ssa.Value) bool {
+	switch x := v.(type) {
+	case *ssa.Parameter, *ssa.FreeVar:
+		return true
+	case *ssa.UnOp:
+		if x.Op != token.MUL {
+			return false
+		}
+		switch c := x.X.(type) {
+		case *ssa.FreeVar:
+			return true
+		case *ssa.Alloc:
+			n := 0
+			for _, r := range referrers(c) {
+				if st, ok := r.(*ssa.Store); ok && st.Addr == ssa.Value(c) {
+					if _, isPar := st.Val.(*ssa.Parameter); !isPar {
+						return false
+					}
+					n++
+				}
+			}
+			return n > 0
+		}
+	}
+	return false
+}
+
 // Reach returns the functions reachable from roots, with one witness
 // predecessor edge each (for printing a path).
 func (g *Graph) Reach(roots []*ssa.Function) map[*ssa.Function]*Edge {
@@ -393,6 +479,9 @@ func (g *Graph) Reach(roots []*ssa.Function) map[*ssa.Function]*Edge {
 		queue = queue[1:]
 		for i := range g.Out[f] {
 			e := g.Out[f][i]
+			if e.Kind == "dynamic-param" {
+				continue
+			}
 			if _, ok := seen[e.Callee]; !ok {
 				ee := e
 				seen[e.Callee] = &ee
